@@ -28,6 +28,8 @@ def symbolize(module, prefix, zero=(), frozen=True):
         else:
             t = fresh(shape, "%s.%s" % (prefix, name), owner="%s.%s" % (prefix, name), frozen=frozen)
         setattr(module, name, nn.Parameter(t, requires_grad=False))
+        if st.REQUIRES_GRAD[0]:
+            getattr(module, name)._rg = True      # as if installed by `nn.Parameter(W)` (see symtensor.REQUIRES_GRAD)
         names.append(name)
     return names
 
